@@ -304,6 +304,47 @@ fn text(d: &mut Dec, cx: &mut Cx) -> Res {
         };
         b.build()
     };
+    if d.ratio(1, 12) {
+        // the null font: a style built without setting a font
+        let n = d.u(0, 6);
+        let mut s = String::new();
+        for _ in 0..n {
+            s.push(d.pick(&['a', ' ', '\n', '\r', '\u{1F600}', '?']));
+        }
+        cx.describe(|| format!("null font (MonoTextStyleBuilder without font) text {:?} at {:?} {:?} {:?} {:?}", s, pos, alignment, baseline, line_height));
+        cx.class("null_font");
+        cx.nontrivial(true);
+        let mut b = MonoTextStyleBuilder::<Rgb888>::new();
+        if let Some(c) = fg {
+            b = b.text_color(c);
+        }
+        if let Some(c) = bg {
+            b = b.background_color(c);
+        }
+        if !ul.is_none() {
+            b = b.underline();
+        }
+        if !st.is_none() {
+            b = b.strikethrough_with_color(Rgb888::nth(6));
+        }
+        let style = b.build();
+        let r = counted(|| {
+            catch(|| {
+                let t = Text::with_text_style(&s, pos, style, text_style);
+                let bb = t.bounding_box();
+                let budget = budget_for(bb);
+                let mut n1 = NullT::<Rgb888>::new(BIG_BOX, budget, false);
+                t.draw(&mut n1).map_err(|_| "draw() on a draw_iter-only target exceeds the pixel budget".to_string())?;
+                let mut n2 = NullT::<Rgb888>::new(BIG_BOX, budget, true);
+                t.draw(&mut n2).map_err(|_| "draw() on a native-fill target exceeds the pixel budget".to_string())?;
+                use embedded_graphics::text::renderer::TextRenderer;
+                let _ = style.measure_string(&s, pos, baseline);
+                let _ = style.line_height();
+                Ok(())
+            })
+        });
+        return judge("text", "null font", r);
+    }
     if !custom {
         let fi = d.idx(FONTS.len());
         let s = gen_string(d, fi, 14, true, true);
